@@ -20,8 +20,12 @@ def draw_values(rnd, n, mode, depth_bits):
     if mode == "sparse":
         return [rnd.choice([0, 0, 0, 0, 1, -1, rnd.randint(-300, 300)]) for _ in range(n)]
     if mode == "extreme":
-        m = 1 << depth_bits
-        return [rnd.choice([0, m, -m, m - 1, -(m - 1), 1, -1]) for _ in range(n)]
+        # values on and next to the clipping boundaries of the component (+-2^(depth-1)), and far beyond them
+        m = 1 << max(depth_bits - 1, 0)
+        pool = [0, m, -m, m - 1, -(m - 1), m + 1, -(m + 1), 1, -1, 2 * m, -2 * m]
+        if rnd.random() < 0.5:
+            pool = [0, m, -m, m - 1, -(m - 1), 1, -1]  # nothing further out than one step past the legal range
+        return [rnd.choice(pool) for _ in range(n)]
     if mode == "huge":
         return [rnd.choice([0, 0, 1, -1]) if rnd.random() < 0.8 else rnd.choice([1, -1]) * (1 << rnd.randint(8, 40)) for _ in range(n)]
     return [rnd.randint(-3, 3) for _ in range(n)]
@@ -32,7 +36,9 @@ def repack_sequence(seq, cf, seed, mode, qmode):
     rnd = random.Random(seed)
     ld = cf["profile"] == Profiles.low_delay
     facts = {"repacked": 0, "dangling": 0, "padding_bits": 0}
-    depth = 10
+    from vpbt.gen.configs import depths as _depths
+
+    depth_y, depth_c = _depths(cf["video_parameters"])
     sx_n, sy_n = cf["slices_x"], cf["slices_y"]
     scaler = None
     slice_no = {}
@@ -62,8 +68,8 @@ def repack_sequence(seq, cf, seed, mode, qmode):
                 n = base + k
                 sb = Z.slice_bytes(sx_n, sy_n, sp["slice_bytes_numerator"], sp["slice_bytes_denominator"], n % sx_n, n // sx_n)
                 budget = Z.ld_budget_bits(sb)
-                y = draw_values(rnd, len(s["y_transform"]), m, depth)
-                c = draw_values(rnd, len(s["c_transform"]), m, depth)
+                y = draw_values(rnd, len(s["y_transform"]), m, depth_y)
+                c = draw_values(rnd, len(s["c_transform"]), m, depth_c)
                 # shrink until it fits: zero coefficients from the end (chroma first, then luma)
                 while Z.block_bits(y) + Z.block_bits(c) > budget:
                     tgt = c if Z.block_bits(c) > 0 and (rnd.random() < 0.6 or Z.block_bits(y) == 0) else y
@@ -108,7 +114,7 @@ def repack_sequence(seq, cf, seed, mode, qmode):
                 scaler = sp["slice_size_scaler"]
                 unit = 8 * scaler
                 for comp in ("y", "c1", "c2"):
-                    vals = draw_values(rnd, len(s[comp + "_transform"]), m, depth)
+                    vals = draw_values(rnd, len(s[comp + "_transform"]), m, depth_y if comp == "y" else depth_c)
                     while -(-Z.block_bits(vals) // unit) > 255:
                         vals = [v // 4 for v in vals]
                     need = -(-Z.block_bits(vals) // unit)
